@@ -5,6 +5,7 @@
   XML parser built) and judges the implementation's observation with `C06.ok`.
 -/
 import Upnp.Model.C06Wire
+import Upnp.Model.C06Anc
 namespace Upnp.Drv.C06
 open Upnp Upnp.Proto Upnp.C06 Upnp.C06.Wire
 
@@ -114,6 +115,10 @@ def finish (a : Acc) : Bool × Bool × List String :=
         let mt := (readEnvelope a.body).map Envelope.tree
         if a.sent == 1 && !(optXmlEq mt implTree) then n ++ [s!"tree parser={optXmlShow implTree} readEnvelope={optXmlShow mt}"] else n
     | _ => notes
+  -- the instance of `c06_model_ok_gen` for this case, evaluated: the model's own observation
+  -- (`modelObs genAnc`, the theorem's term) must pass the same judge
+  let notes := if ok O decl a.kw (modelObs genAnc (reqs, mexc)) then notes
+               else notes ++ ["model observation fails C06.ok (case outside the theorem's hypotheses?)"]
   let corr := notes.isEmpty
   let j := ok O decl a.kw obs
   let notes := if j then notes else
